@@ -54,9 +54,21 @@ def _instantiate(case, which):
 def _anonymize(lines, salt, undo=False):
     from netconan.anonymize_files import FileAnonymizer
 
-    with core.capture_logs(logging.INFO) as records:
-        fa = FileAnonymizer(anon_pwd=True, anon_ip=False, undo_ip_anon=undo, salt=salt)
-        out = core.run_io(fa, "".join(l + "\n" for l in lines))
+    import random
+
+    state = random.getstate()
+    try:
+        if salt is None:
+            # salt option left at its default: netconan draws one from `random`; pin that draw so that
+            # paired runs get the same generated salt (and nothing depends on the wall clock)
+            random.seed(0x5A17)
+        with core.capture_logs(logging.INFO) as records:
+            fa = FileAnonymizer(anon_pwd=True, anon_ip=False, undo_ip_anon=undo, salt=salt)
+            out = core.run_io(fa, "".join(l + "\n" for l in lines))
+    finally:
+        random.setstate(state)
+    if salt is None:
+        records = [r for r in records if "No salt was provided" not in r[1]]
     return out.split("\n")[:-1] if out.endswith("\n") else out.split("\n"), list(records)
 
 
@@ -197,8 +209,18 @@ def check_standalone(case, ev):
         return core.exc_finding(exc, case, "run/")
     out = r[0][0]
     kw = [t for t in case["before"] + case["after"] if t in S.KEYWORDS]
-    ev.case(case, bool(kw), ["$9$" if tok.startswith("$9$") else "$1$", "keywords%d" % min(len(kw), 4)])
+    ev.case(case, bool(kw), ["$9$" if tok.startswith("$9$") else "$1$", "keywords%d" % min(len(kw), 4)] + (["paired"] if case.get("token2") else []) + (["salt-defaulted"] if case["salt"] is None else []))
     if tok not in out:
+        tok2 = case.get("token2")
+        if tok2 and tok2 != tok:
+            # a second token of the same class and shape in the same place: identical output, and no
+            # piece of either secret's body left behind
+            r2, exc = guarded(_anonymize, [" ".join(case["before"] + [tok2] + case["after"])], case["salt"])
+            if exc is not None:
+                return core.exc_finding(exc, case, "run/")
+            out2 = r2[0][0]
+            if tok2 not in out2 and out2 != out:
+                return Finding("standalone/output-depends-on-hash-content", "%r -> %r but with %r -> %r" % (line, out, tok2, out2), case)
         return None
     others_changed = [t for t in out.split() if t not in line.split()]
     if others_changed:
@@ -243,7 +265,8 @@ def check_longline(case, ev):
     if form.mode in ("scrub", "either") and S.SCRUB in outs[0]:
         return None if v not in outs[0].replace(S.SCRUB, " ") else Finding("long/secret-kept", "secret %r kept in a %d-character line" % (v, len(line)), case)
     rs = S.extract_replacements(line, [(a + shift, b + shift) for a, b in spans], outs[0])
-    if rs is None or rs[0] == v or v in outs[0][len(pad) - 1 :]:
+    # (a value of fewer than 6 characters may occur inside its own pseudonym by chance: '11' in '1467...1154...')
+    if rs is None or rs[0] == v or (len(v) >= 6 and v in outs[0][len(pad) - 1 :]):
         return Finding("long/secret-kept-or-context-changed:%s" % form.id, "line of %d characters ending in %r -> ...%r" % (len(line), line[-80:], outs[0][-120:]), case)
     return None
 
@@ -316,19 +339,42 @@ def _run_case(draw, max_lines=6):
                         v, ident = v2, v2  # a lone backslash is an ordinary character of the secret
             ids.add(ident)
             values[which].append(v)
-    return {"salt": draw(st.sampled_from(["Tsalt", "", "s", "_x", "QzF"])), "lines": lines, "classes": [b["cls"] for b in blocks], "values": values, "undo": undo}
+    return {"salt": draw(st.sampled_from(["Tsalt", "", "s", "_x", "QzF", None])), "lines": lines, "classes": [b["cls"] for b in blocks], "values": values, "undo": undo}
 
 
 _hash_token = st.one_of(S.md5_value(), S.j9_value())
+# "all secret values over printable non-space ASCII excluding quote/terminator characters": hash-shaped
+# tokens whose body is not crypt-64 only (the token ends in a letter or digit: no trailing punctuation
+# that the line syntax could claim)
+_ROUGH = [c for c in map(chr, range(33, 127)) if c not in "\"';$\\"]
+
+
+@st.composite
+def _hash_pair(draw):
+    k = draw(st.integers(0, 3))
+    if k == 0:
+        n = draw(st.integers(1, 8))
+        return draw(S.md5_value(salt_len=n)), draw(S.md5_value(salt_len=n))
+    if k == 1:
+        a = draw(S.j9_value())
+        return a, draw(S.j9_value())
+    n = draw(st.integers(1, 8))
+    m = draw(st.integers(2, 22))
+    toks = []
+    for _ in range(2):
+        salt = draw(S.chars(S.CRYPT64, n, n))
+        body = draw(S.chars(_ROUGH, m - 1, m - 1)) + draw(st.sampled_from("abcXYZ019"))
+        toks.append("$1$" + salt + "$" + body)
+    return toks[0], toks[1]
 _soup = st.one_of(st.sampled_from(S.KEYWORDS), st.sampled_from(S.BENIGN), st.sampled_from(["0", "5", "7", "15", "level", "3", "1.2.3.4"]))
 
 
 @st.composite
 def _standalone_case(draw):
-    tok = draw(_hash_token)
+    tok, tok2 = draw(_hash_pair())
     if draw(st.booleans()):
-        tok = '"' + tok + '"'
-    return {"before": draw(st.lists(_soup, max_size=5)), "token": tok, "after": draw(st.lists(st.sampled_from(S.BENIGN + ["ro", "rw", "1", "7"]), max_size=2)), "salt": "Tsalt"}
+        tok, tok2 = '"' + tok + '"', '"' + tok2 + '"'
+    return {"before": draw(st.lists(_soup, max_size=5)), "token": tok, "token2": tok2, "after": draw(st.lists(st.sampled_from(S.BENIGN + ["ro", "rw", "1", "7"]), max_size=2)), "salt": draw(st.sampled_from(["Tsalt", "Tsalt", None]))}
 
 
 def t_runs(shard, nshards, seed, ev, known, n=500):
